@@ -5,7 +5,7 @@ import json, os, re, glob
 HERE = os.path.dirname(os.path.abspath(__file__))
 SEED = os.path.join(os.path.dirname(HERE), "seeded")
 rows = []
-for d in sorted(glob.glob(os.path.join(SEED, "C*"))):
+for d in sorted(glob.glob(os.path.join(SEED, "C??"))) + sorted(glob.glob(os.path.join(SEED, "R2-C??"))):
     sid = os.path.basename(d)
     ag = {}
     try:
@@ -28,7 +28,7 @@ for d in sorted(glob.glob(os.path.join(SEED, "C*"))):
         "change": ag.get("what_changed", ""),
         "needs_to_manifest": ag.get("needs_to_manifest", ""),
         "what_i_ran": [
-            "tools/confirm_seed.sh %s : fresh scratch worktree of /repo HEAD; demo test without the change, existing tests with the change, demo test with the change; worktree removed" % sid,
+            "tools/confirm_seed.sh (%s) : fresh scratch worktree of /repo HEAD; demo test without the change, existing tests with the change, demo test with the change; worktree removed" % sid,
             "tools/try_patch.sh seeded/%s/patch.diff : git -C /repo apply; cargo test; ./check Cxx quick for all 20 properties; git -C /repo checkout -- ." % sid,
         ],
         "confirmed_demo_fails_with_change": demo_ok,
